@@ -167,7 +167,7 @@ class Wire(Contract):
                 return sym.VClass('type(self)')
             return None
         return {'call_default': call_default, 'binop_default': binop_default, 'call': call_, 'op': op_, 'glob': glob,
-                'type_default': type_default, 'attr': attr_, 'attr_default': attr_default, 'builtin_map_partitions': map_partitions}
+                'type_default': type_default, 'attr': attr_, 'builtin_map_partitions': map_partitions}
 
     def unit(self, I, index):
         m = index.find_method(self.cls, self.method)       # the method the class resolves to (may be inherited)
